@@ -113,15 +113,16 @@ Hypothesis R_sym : forall a b, R a b -> R b a.
 Hypothesis R_trans : forall a b c, R a b -> R b c -> R a c.
 Hypothesis R_bin : forall k a a' b b', R a a' -> R b b' -> R (binf C k a b) (binf C k a' b').
 Hypothesis R_un : forall k a a', R a a' -> R (unf C k a) (unf C k a').
-Variable flagged : nat -> Prop.
-Hypothesis flagged_assoc : forall k, flagged k -> forall a b c, R (binf C k (binf C k a b) c) (binf C k a (binf C k b c)).
+Variable okop : dbop -> Prop.
+Hypothesis okop_assoc : forall o, okop o -> bcomm o = true ->
+  forall a b c, R (binf C (bidx o) (binf C (bidx o) a b) c) (binf C (bidx o) a (binf C (bidx o) b c)).
 Variable look : nat -> str -> D.
 Variable okvar : nat -> str -> Prop.
 Variable okvars : list str -> Prop.
 Local Notation dden := (dden C look).
 Local Notation nden := (nden C look).
-Local Notation dwf := (dwf flagged okvar okvars).
-Local Notation nwf := (nwf flagged okvar okvars).
+Local Notation dwf := (dwf okop okvar okvars).
+Local Notation nwf := (nwf okop okvar okvars).
 
 Lemma nval_dec orig f : nun f = [] -> nval C (map nden orig) f = nden (dec orig f).
 Proof.
@@ -221,7 +222,7 @@ Proof.
   destruct fn as [|f0 ft] eqn:Efn; [cbn in Hfnl; lia|].
   assert (Hl : length ft = length (map to_fop bops)) by (rewrite map_length; cbn in Hfnl; lia).
   assert (Hassoc : assoc_ok C R (map to_fop bops)).
-  { intros o Ho Hc. apply in_map_iff in Ho. destruct Ho as (o' & <- & Ho'). cbn in *. apply flagged_assoc. apply Hfl; assumption. }
+  { intros o Ho Hc. apply in_map_iff in Ho. destruct Ho as (o' & <- & Ho'). cbn in *. exact (okop_assoc o' (Hfl o' Ho') Hc). }
   assert (Hplain : nums_plain (f0 :: ft)) by (intros f Hf v _; apply (Hg f Hf)).
   destruct (compile_loop_preserves C R R_refl R_sym R_trans R_bin R_un (map to_fop bops) (dkey nodes bops)
               (dkey_cases nodes bops) (dkey_ok nodes bops) f0 ft Hl Hassoc Hplain)
@@ -236,7 +237,7 @@ Proof.
   rewrite (level_pv_dec nodes (f0 :: ft) bops Hg), Hdec in HR.
   set (nodes' := map (dec nodes) fn') in *.
   assert (Hn'l : length nodes' = S (length bops')) by (unfold nodes'; rewrite map_length; exact Hlen').
-  assert (Hfl' : forall o, In o bops' -> bcomm o = true -> flagged (bidx o)).
+  assert (Hfl' : forall o, In o bops' -> okop o).
   { intros o Ho. apply Hfl. assert (Hin : In (to_fop o) (map to_fop bops)) by (apply Hsub; apply in_map; exact Ho).
     apply in_map_iff in Hin. destruct Hin as (o' & E & Ho'). destruct o, o'; cbn in E. inversion E; subst. exact Ho'. }
   assert (Hnwf' : Forall nwf nodes').
